@@ -12,7 +12,7 @@ from sysloss.components import Source, RLoss, Converter, ILoad, PMux, LinReg, _C
 
 LET = {
     "R": lambda n: RLoss(n, rs=0.5),
-    "W": lambda n: RLoss(n, rs=0.5, limits={"vi": [0.0, 1.0], "pl": [0.0, 1e-6]}),  # same element with limits that make it warn
+    "W": lambda n: RLoss(n, rs=0.5, limits={"vi": [0.0, 1.0], "pl": [0.0, 1e-6], "tp": [0.0, 1.0e6]}),   # tp equals the default of the OTHER keys  # same element with limits that make it warn
     "C": lambda n: Converter(n, vo=3.3, eff=0.9, iq=1e-3, iis=1e-4),
     "I": lambda n: ILoad(n, ii=0.1, iis=1e-3),
     "M": lambda n: PMux(n, rs=0.1, ig=1e-4),
@@ -28,6 +28,8 @@ SEEDS = {
     "mux": [["ac", "S1", "R", "A1", ""], ["as", "S2", ""], ["ac", ["A1", "S2"], "M", "MX", ""], ["ac", "MX", "I", "A3", ""]],
     "freed0": [["as", "S2", ""], ["dc", "S1", True], ["ac", "S2", "M", "MX", ""], ["ac", "MX", "I", "A3", ""]],   # a PMux sitting at graph index 0
     "rerail": [["ac", "S1", "C", "A1", "QA"], ["ac", "QA", "I", "A2", ""], ["ac", "S1", "R", "A3", ""], ["cc", "A1", "C", "A1", "QB"], ["cc", "A3", "R", "A3", "QA"]],  # a rail handed over to another owner
+    "blank": [["ac", "S1", "R", "B1 ", "R1 "], ["ac", "B1 ", "I", " L1", ""]],                      # names / rails with leading or trailing blanks
+    "chain": [["ac", "S1", "R", "A1", ""], ["ac", "A1", "C", "A2", ""], ["ac", "A2", "I", "A3", ""], ["anp", "params"]],   # an analysis was run before the edits start
     "mux3": [["ac", "S1", "R", "A1", ""], ["as", "S2", ""], ["ac", ["A1", "S1", "S2"], "M", "MX", ""], ["ac", "MX", "I", "A3", ""], ["ac", "A1", "I", "A4", ""]],
     "phases": [["ac", "S1", "C", "A1", ""], ["ac", "A1", "I", "A2", ""], ["sp", [["p", 1.0], ["q", 2.0]]], ["cp", "A1", ["p"], "l"], ["cp", "A2", [["p", 0.05]], "d"]],
     "freed": [["ac", "S1", "R", "A1", ""], ["ac", "A1", "I", "A2", ""], ["ac", "S1", "C", "A3", ""], ["dc", "A1", True]],
@@ -62,6 +64,8 @@ def apply(s, op):
         else:
             arg = op[2]
         s.set_comp_phases(op[1], arg)
+    elif k == "anp":  # a cheap analysis (params) that refreshes the relationship caches
+        s.params()
     elif k == "an":  # an analysis call in the middle of an edit history (must not influence anything later)
         quiet_call(s.solve, energy=True)
     else:
@@ -156,6 +160,8 @@ def ops(s, budget, letters="RCIM", phase_ops=True, gone=(), analysis_op=False):
                 add(c + 1, ["ac", p, L, fresh, "", "g1"])
             add(c + 1, ["ac", p, L, fresh, frail])
             add(c + 1, ["ac", p, L, names[0], ""])
+            if len(names) > 1 and L == letters[0]:
+                add(c + 1, ["ac", p, L, names[-1], ""])      # colliding with the most recently added name as well
             if L == letters[0]:
                 add(c + 2, ["ac", p, L, names[0], frail])     # colliding NAME together with a fresh, valid rail
             add(c + 2, ["ac", p, L, fresh, fresh])
@@ -178,6 +184,7 @@ def ops(s, budget, letters="RCIM", phase_ops=True, gone=(), analysis_op=False):
             add(1, ["as", old, ""])
     if analysis_op:
         add(1, ["an", "solve_energy"])
+    add(2, ["ac", [], "M", fresh, frail])        # an empty parent list
     if len(names) >= 1:
         add(1, ["ac", [names[0], names[0]], "M", fresh, ""])
         if rails:
@@ -329,7 +336,7 @@ def model_apply(models, op):
         elif k == "sp":
             m["phases"] = _pj(dict((a, b) for a, b in op[1]))
             out.append(m)
-        elif k == "an":
+        elif k in ("an", "anp"):
             out.append(m)
         elif k == "cp":
             t = _owner(m, op[1])
